@@ -16,6 +16,7 @@ Decided (Moslem <-> civil conversion; necessary conditions of the day bijection)
 That the recipes equal the tabular Computus / arithmetic Hebrew calendar is the content of the published
 algorithms and is trusted, not decided."""
 import ast
+import calendar
 import os
 from fractions import Fraction
 
@@ -28,9 +29,9 @@ from .c16 import datetime_julian, doy2date_table
 
 MANIFEST = {
     "level": "other",
-    "technique": "static analysis: data-dependence (slicing) of the year selector on the recomputed month, control-dependence of century corrections on a calendar test, threshold-gap rule on the calendar split, sibling-constant comparison of the JD->date blocks, refusal path rule, term equality of the Easter / Pesach / Moslem recipes with the published algorithms (ring algebra with floor and mod uninterpreted), exact decision-table evaluation of the Moslem year-end carry on every ordering class and of the civil -> day-count stage of gregorian2moslem on every class of civil date (month x year mod 400 over two cycles, Julian years mod 4) against the calendar ordinal",
-    "text": "For the Moslem <-> civil conversions the rules decide, for every date at once, three structural necessary conditions of the day bijection (year chosen from the recomputed month, Gregorian correction only in the Gregorian regime, no civil year skipped by the calendar split) plus agreement of the shared JD->date block with Epoch.get_date and the argument refusals. Easter (Gregorian from 1583, Julian before), Pesach and the Moslem -> civil day count are shown to be term-for-term the published recipes (Meeus ch. 8-9), and the Moslem year-end carry to be that of a Julian-calendar year; that the published recipes equal the tabular Computus / arithmetic calendars is trusted. The civil -> Moslem direction is shown to count civil days uniformly (its running day count differs from the calendar ordinal by one constant on every class of date), a necessary condition of consecutive days mapping to consecutive dates. Month/year lengths and the bijection itself are not decided.",
-    "note": "Trusted: the reading of INT(x/100) as a century number; thresholds 1582/1583/2299161 as calendar tests. Trusted: the published recipes. Undecided: month lengths 29/30, year lengths 354/355, the bijection and the epoch 16 July 622.",
+    "technique": "static analysis: data-dependence (slicing) of the year selector on the recomputed month, control-dependence of century corrections on a calendar test, threshold-gap rule on the calendar split, sibling-constant comparison of the JD->date blocks, refusal path rule, term equality of the Easter / Pesach / Moslem recipes with the published algorithms (ring algebra with floor and mod uninterpreted), exact decision-table evaluation of the Moslem year-end carry on every ordering class and of the civil -> day-count stage of gregorian2moslem on every class of civil date (month x year mod 400 over two cycles, Julian years mod 4) against the calendar ordinal, exact execution of both Moslem conversion terms on every Moslem year 1..1600 against the arithmetic Islamic calendar and against each other",
+    "text": "For the Moslem <-> civil conversions the rules decide, for every date at once, three structural necessary conditions of the day bijection (year chosen from the recomputed month, Gregorian correction only in the Gregorian regime, no civil year skipped by the calendar split) plus agreement of the shared JD->date block with Epoch.get_date and the argument refusals. Easter (Gregorian from 1583, Julian before), Pesach and the Moslem -> civil day count are shown to be term-for-term the published recipes (Meeus ch. 8-9), and the Moslem year-end carry to be that of a Julian-calendar year; that the published recipes equal the tabular Computus / arithmetic calendars is trusted. The civil -> Moslem direction is shown to count civil days uniformly (its running day count differs from the calendar ordinal by one constant on every class of date), a necessary condition of consecutive days mapping to consecutive dates. The bijection itself is decided by exact execution of both extracted conversion terms: for every Moslem year 1..1600 the first two days and 29 Dhu al-Hijja (thorough tier: every day, 566987 dates) map to an existing civil date, on the very day the arithmetic Islamic calendar (epoch 16 July 622 Julian, 30-year cycle) gives - hence consecutive dates on consecutive days, months of 29/30 and years of 354/355 days - and convert back to themselves.",
+    "note": "Trusted: the reading of INT(x/100) as a century number; thresholds 1582/1583/2299161 as calendar tests. Trusted: the published recipes. Undecided: Moslem years beyond 1600 AH; float vs exact evaluation of the floors.",
 }
 MOD = "Epoch"
 JD_BLOCKS = ["Epoch.get_date", "Epoch.moslem2gregorian", "Epoch.gregorian2moslem"]
@@ -61,6 +62,7 @@ def run(repo, rep, tier):
     recipes(repo, rep)
     moslem_carry(repo, rep)
     daycount(repo, rep)
+    moslem_cycle(repo, rep, tier)
     # moslem2gregorian names every civil date before 1583 through doy2date: its day-number table (shared with C16)
     rep.fn(MOD, "Epoch.doy2date")
     doy2date_table(repo, rep)
@@ -72,6 +74,136 @@ def run(repo, rep, tier):
     effects.check_functions(repo, rep, fam)
     guards.check_functions(repo, rep, fam)
     return "other"
+
+
+# --------------------------------------------------------------------------------------------------------------------------
+# R-CYCLE (Moslem calendar): exact execution of both conversion terms
+# --------------------------------------------------------------------------------------------------------------------------
+def _civil_jdn(y, m, d):
+    """Julian Day Number of a civil date in the calendar in force (checker's own integer arithmetic)"""
+    a = (14 - m) // 12
+    yy = y + 4800 - a
+    mm = m + 12 * a - 3
+    if (y, m, d) >= (1582, 10, 15):
+        return d + (153 * mm + 2) // 5 + 365 * yy + yy // 4 - yy // 100 + yy // 400 - 32045
+    return d + (153 * mm + 2) // 5 + 365 * yy + yy // 4 - 32083
+
+
+def _islamic_jdn(h, m, d):
+    """arithmetic (tabular) Islamic calendar, civil epoch 16 July 622 Julian (JDN 1948440), leap years 2, 5, 7, 10, 13, 16, 18, 21,
+    24, 26, 29 of the 30-year cycle"""
+    return d + (59 * (m - 1) + 1) // 2 + (h - 1) * 354 + (3 + 11 * h) // 30 + 1948440 - 1
+
+
+_MOSLEM_TERMS = {}
+
+
+def _moslem_terms(root):
+    if root not in _MOSLEM_TERMS:
+        from ..frontend import Repo
+        from .c16 import stdlib_prims
+        from ..rules import eval_exact
+        repo = Repo(root) if root else Repo()
+        H, M, D = T.sym("NUM_H"), T.sym("NUM_M"), T.sym("NUM_D")
+        Y, MO, DD = T.sym("NUM_Y"), T.sym("NUM_MO"), T.sym("NUM_DD")
+        f1 = repo.func(MOD, "Epoch.moslem2gregorian")
+        f2 = repo.func(MOD, "Epoch.gregorian2moslem")
+        f3 = repo.func(MOD, "Epoch.doy2date")
+        o1, _ = symx.eval_function(repo, MOD, "Epoch.moslem2gregorian", arg_terms=dict(zip([a.arg for a in f1.args.args], (H, M, D))), unroll=4)
+        o2, _ = symx.eval_function(repo, MOD, "Epoch.gregorian2moslem", arg_terms=dict(zip([a.arg for a in f2.args.args], (Y, MO, DD))), unroll=4)
+        o3, _ = symx.eval_function(repo, MOD, "Epoch.doy2date", arg_terms=dict(zip([a.arg for a in f3.args.args], (T.sym("NUM_A0"), T.sym("NUM_A1")))), unroll=4)
+        tm, tg, td = symx.return_term(o1), symx.return_term(o2), symx.return_term(o3)
+        base = stdlib_prims(repo)
+
+        def prims(t, env):
+            if t[0] == "call" and t[1] == "Epoch.Epoch.doy2date" and len(t) == 4:
+                e2 = {T.sym("NUM_A0"): eval_exact(t[2], env, prims), T.sym("NUM_A1"): eval_exact(t[3], env, prims), "$memo": {}}
+                return eval_exact(td, e2, prims)
+            return base(t, env)
+        _MOSLEM_TERMS[root] = (tm, tg, prims)
+    return _MOSLEM_TERMS[root]
+
+
+def _moslem_chunk(job):
+    """worker: Moslem years h0..h1-1; `full` = every day, else the first two days and the last (29th of month 12) day of each year.
+    Returns (dates executed, problems[(kind, key, text)])"""
+    from ..rules import eval_exact, NotEvaluable
+    root, h0, h1, full = job
+    tm, tg, prims = _moslem_terms(root)
+    H, M, D = T.sym("NUM_H"), T.sym("NUM_M"), T.sym("NUM_D")
+    Y, MO, DD = T.sym("NUM_Y"), T.sym("NUM_MO"), T.sym("NUM_DD")
+    probs = []
+    n = 0
+
+    def m2g(h, m, d):
+        v = eval_exact(tm, {H: Fraction(h), M: Fraction(m), D: Fraction(d), "$memo": {}}, prims)
+        return tuple(int(x) for x in v) if (isinstance(v, tuple) and len(v) == 3 and all(Fraction(x).denominator == 1 for x in v)) else v
+
+    def g2m(y, m, d):
+        v = eval_exact(tg, {Y: Fraction(y), MO: Fraction(m), DD: Fraction(d), "$memo": {}}, prims)
+        return tuple(int(x) for x in v) if (isinstance(v, tuple) and len(v) == 3 and all(Fraction(x).denominator == 1 for x in v)) else v
+    for h in range(h0, h1):
+        dates = [(h, m, d) for m in range(1, 13) for d in range(1, 31)] if full else [(h, 1, 1), (h, 1, 2), (h, 12, 29)]
+        for (hh, m, d) in dates:
+            if d == 30 and _islamic_jdn(hh, m, 30) == _islamic_jdn(*((hh, m + 1, 1) if m < 12 else (hh + 1, 1, 1))):
+                continue                     # the month has 29 days in the arithmetic calendar
+            try:
+                g = m2g(hh, m, d)
+                n += 1
+                valid = isinstance(g, tuple) and len(g) == 3 and 1 <= g[1] <= 12 and 1 <= g[2] <= \
+                    calendar.mdays[g[1]] + (1 if g[1] == 2 and ((g[0] % 4 == 0) if (g[0], g[1], g[2]) < (1582, 10, 15) else calendar.isleap(g[0])) else 0)
+                if not valid:
+                    probs.append(("m2g-invalid", "%d" % hh, "moslem2gregorian(%d, %d, %d) = %s is not a civil date" % (hh, m, d, g)))
+                    continue
+                if _civil_jdn(*g) != _islamic_jdn(hh, m, d):
+                    probs.append(("m2g-arithmetic", "%d" % hh, "moslem2gregorian(%d, %d, %d) = %s is %+d day(s) from the arithmetic Islamic calendar (epoch 16 July 622 Julian)"
+                                  % (hh, m, d, g, _civil_jdn(*g) - _islamic_jdn(hh, m, d))))
+                back = g2m(*g)
+                if back != (hh, m, d):
+                    probs.append(("g2m-roundtrip", "%d" % hh, "gregorian2moslem%s = %s, but %s is moslem2gregorian(%d, %d, %d)" % (g, back, g, hh, m, d)))
+            except NotEvaluable as e:
+                return n, [("not-evaluable", "", "%s at %d-%d-%d AH" % (e, hh, m, d))]
+            except (TypeError, ValueError, ZeroDivisionError, IndexError) as e:
+                probs.append(("error", "%d" % hh, "%s: %s at %d-%d-%d AH" % (type(e).__name__, e, hh, m, d)))
+    return n, probs
+
+
+def moslem_cycle(repo, rep, tier):
+    """R-CYCLE (Moslem): both conversions are integer recipes; they are executed exactly on the first two and last two days of every
+    Moslem year 1..1600 (where the civil and the Moslem year boundaries interact) and - thorough tier - on every day of those years.
+    Each date must map to an existing civil date, on the day the arithmetic Islamic calendar (epoch 16 July 622 Julian, 30-year cycle)
+    gives it - which makes consecutive dates consecutive days, months 29/30 and years 354/355 days long - and convert back to itself."""
+    rep.rule("R-CYCLE", "Moslem -> civil -> Moslem is the identity, on the day given by the arithmetic Islamic calendar "
+                        "(exact execution of the two extracted conversion terms on every Moslem year 1..1600)")
+    site = "Epoch.Epoch.moslem2gregorian/gregorian2moslem"
+    full = tier == "thorough"
+    step = 100
+    jobs = [(repo.root, h0, min(h0 + step, 1601), full) for h0 in range(1, 1601, step)]
+    if full:
+        from concurrent.futures import ProcessPoolExecutor
+        try:
+            with ProcessPoolExecutor(max_workers=14) as ex:
+                results = list(ex.map(_moslem_chunk, jobs))
+        except Exception:
+            results = [_moslem_chunk(j_) for j_ in jobs]
+    else:
+        results = [_moslem_chunk(j_) for j_ in jobs]
+    n = sum(r[0] for r in results)
+    probs = [p for r in results for p in r[1]]
+    ne = [p for p in probs if p[0] == "not-evaluable"]
+    if ne:
+        rep.inconcl("R-CYCLE", site, "conversion terms not executable: " + ne[0][2])
+        return
+    by = {}
+    for kind, key, text in probs:
+        by.setdefault((kind, key), text)
+    for (kind, key), text in sorted(by.items())[:40]:
+        rep.violation("R-CYCLE", site, "%s:%s" % (kind, key), text + " (%d date(s) of that year affected)" % sum(1 for p in probs if p[0] == kind and p[1] == key),
+                      construct="AH %s" % key, obligation=True)
+    if not probs:
+        rep.ok("R-CYCLE", site, "%d Moslem dates executed exactly: existing civil date, agreement with the arithmetic calendar, round trip%s"
+               % (n, " (every day of AH 1..1600)" if full else " (first two days and 29 Dhu al-Hijja of every year AH 1..1600)"), obligation=True)
+        rep.floor("Moslem dates executed through both conversions", n, 4500)
 
 
 def daycount(repo, rep):
